@@ -254,7 +254,7 @@ def gen(tier, rng, boost=1):
         ops += reads(rng, T, b"\xC1" + TAIL, allpol=True)
     # loading through the scopes (sequences, maps, classes): nil / other kinds in any position of nested arrays and objects
     from .scopegen import gen_scope_ops
-    ops += gen_scope_ops(tier, rng, boost, count=(400 if tier == "quick" else 8000) * boost, truncated=0.0)
+    ops += gen_scope_ops(tier, rng, boost, count=(400 if tier == "quick" else 8000) * boost, truncated=0.15)
     # typed map keys: the comparison of a key read in ANY integer format with a key requested as any C++ integer type
     from .C03 import keyeq_ops
     ops += keyeq_ops(tier, rng)
